@@ -113,6 +113,18 @@ func LoadVerifier(repo, libDir string, patterns []string) (*Verifier, error) {
 	return v, nil
 }
 
+func (v *Verifier) typesPkg(path string) *types.Package {
+	if path == "" {
+		return nil
+	}
+	for _, p := range v.prog.AllPackages() {
+		if p.Pkg.Path() == path {
+			return p.Pkg
+		}
+	}
+	return nil
+}
+
 func (v *Verifier) typeID(t types.Type) int {
 	k := types.TypeString(t, nil)
 	if id, ok := v.typeIDs[k]; ok {
